@@ -24,7 +24,7 @@ from sim.sched import Sched, SimDeadlock, SimHang, DONE
 STORAGES = ['Storage', 'PickleStorage', 'Hdf5Storage', '_NumpyStorage', '_NpcArrayStorage']
 KEYS = ['a', 'b', 'c', 'd']
 OP_KINDS = ['set', 'get', 'getd', 'del', 'in', 'len', 'iter', 'pop', 'setdefault', 'update', 'clear', 'items',
-            'preload', 'stk', 'sub', 'bool', 'sleep', 'popitem', 'values', 'keys', 'mutset']
+            'preload', 'stk', 'sub', 'bool', 'sleep', 'popitem', 'values', 'keys', 'mutset', 'mutget']
 TRACE_FILES = ('tenpy/tools/cache.py', 'tenpy/tools/thread.py')
 
 
@@ -86,8 +86,43 @@ def mkval(kind, uid):
     raise ValueError(kind)
 
 
+_MUTATED = {}  # id(object) -> (object, uid): values the harness modified in place after reading them (per run)
+_DAMAGED_UIDS = set()  # uids of those values
+
+
+def damage_in_place(kind, v):
+    """Modify a value returned by the cache in place (the caller keeps working with it); True if done.  The uid
+    stays recognisable."""
+    if kind == 'npc' and v.shape[0] >= 2:
+        v.iproject([True] * (v.shape[0] - 1) + [False], 0)  # discard the last index of the first leg
+        return True
+    if kind == 'dict':
+        v['pad'] = 'modified in place'
+        return True
+    if kind in ('ndarray', 'ndarray_pickled') and v.flags.writeable and v.shape[0] >= 2:
+        v[-1] = -7.0
+        return True
+    return False
+
+
+def _same_value(kind, v, ref):
+    if kind in ('int', 'tuple', 'dict', 'opt'):
+        return (type(v) is type(ref)) and v == ref
+    if kind in ('ndarray', 'ndarray_pickled'):
+        return isinstance(v, real_np.ndarray) and v.shape == ref.shape and bool((v == ref).all())
+    ok = (v.get_leg_labels() == ref.get_leg_labels() and v.dtype == ref.dtype and v.shape == ref.shape
+          and bool((v.to_ndarray() == ref.to_ndarray()).all())
+          and all(l1.test_equal(l2) is None for l1, l2 in zip(v.legs, ref.legs)))
+    v.test_sanity()
+    return ok
+
+
 def val_uid(kind, v):
-    """Extract the uid of a returned value, checking integrity; returns ('bad', repr) if not a written value."""
+    """Extract the uid of a returned value, checking integrity; returns ('bad', repr) if not a written value.
+    A value that the harness modified in place after reading it (mutget) stands for what was written: as the very
+    object, or with equal content (a deferred write of the threaded storage saves the object as it is then)."""
+    if id(v) in _MUTATED and _MUTATED[id(v)][0] is v:
+        return _MUTATED[id(v)][1]
     try:
         if kind == 'int':
             uid = v
@@ -103,17 +138,13 @@ def val_uid(kind, v):
             uid = int(round(float(real_np.real(v.to_ndarray()[0, 0]))))
         if not isinstance(uid, int) or isinstance(uid, bool):
             return ('bad', repr(v)[:80])
-        ref = mkval(kind, uid)
-        if kind in ('int', 'tuple', 'dict', 'opt'):
-            ok = (type(v) is type(ref)) and v == ref
-        elif kind in ('ndarray', 'ndarray_pickled'):
-            ok = isinstance(v, real_np.ndarray) and v.shape == ref.shape and bool((v == ref).all())
-        else:
-            ok = (v.get_leg_labels() == ref.get_leg_labels() and v.dtype == ref.dtype and v.shape == ref.shape
-                  and bool((v.to_ndarray() == ref.to_ndarray()).all())
-                  and all(l1.test_equal(l2) is None for l1, l2 in zip(v.legs, ref.legs)))
-            v.test_sanity()
-        return uid if ok else ('bad', repr(v)[:80])
+        if _same_value(kind, v, mkval(kind, uid)):
+            return uid
+        if uid in _DAMAGED_UIDS:
+            ref2 = mkval(kind, uid)
+            if damage_in_place(kind, ref2) and _same_value(kind, v, ref2):
+                return uid
+        return ('bad', repr(v)[:80])
     except Exception as e:  # noqa: BLE001
         return ('bad', f'{type(e).__name__}: {e}'[:80])
 
@@ -378,7 +409,9 @@ def gen_plan(run_seed, fault_mode=None):
             # new content) - what an algorithm does that updates a cached tensor; a plain set if there is none
             uid += 1
             ops.append([kind, c, k, uid])
-        elif kind in ('get', 'getd', 'del', 'in', 'pop'):
+        elif kind in ('get', 'getd', 'del', 'in', 'pop', 'mutget'):
+            # mutget: read a value and modify the returned object in place *without* writing it back: later reads
+            # may give the stored snapshot or that very object (a dict would give the object), never anything else
             ops.append([kind, c, k])
         elif kind in ('len', 'iter', 'clear', 'items', 'bool', 'popitem', 'values', 'keys'):
             ops.append([kind, c])
@@ -513,6 +546,8 @@ def execute(plan, scratch_root, decisions=None, jitters=None):
     shutil.rmtree(rundir, ignore_errors=True)
     os.makedirs(rundir)
     res = {'violation': None, 'ops_done': 0}
+    _MUTATED.clear()
+    _DAMAGED_UIDS.clear()
     st = _RunState(plan, sched, inj, rundir)
     st.error_log = error_log
     try:
@@ -732,6 +767,9 @@ class _RunState:
     # ---------------------------------------------------------------- one operation
     def step(self, i, op):
         kind = op[0]
+        self.damage = (kind == 'mutget')
+        if kind == 'mutget':
+            kind, op = 'get', ['get'] + list(op[1:])
         self.reuse = (kind == 'mutset')
         if kind == 'mutset':
             kind, op = 'set', ['set'] + list(op[1:])
@@ -838,10 +876,19 @@ class _RunState:
             if val is None:
                 val = mkval(vk, op[3])
             self.last_obj[(op[1], op[2])] = val
+            _MUTATED.pop(id(val), None)  # (written again with valid content: it stands for itself again)
             cache[op[2]] = val
             return None
         if kind == 'get':
-            return cache[op[2]]
+            v = cache[op[2]]
+            if self.damage and not self.closed:
+                uid = val_uid(vk, v)
+                if isinstance(uid, int) and id(v) not in _MUTATED and damage_in_place(vk, v):
+                    _MUTATED[id(v)] = (v, uid)
+                    _DAMAGED_UIDS.add(uid)
+                    self.sched.probe('value_modified_in_place_after_read')
+                    return _Damaged(uid)
+            return v
         if kind == 'getd':
             return cache.get(op[2], _DEFAULT)
         if kind == 'del':
@@ -887,6 +934,8 @@ class _RunState:
     def normalise(self, kind, status, got):
         if status == 'exc':
             return ('exc', type(got).__name__)
+        if isinstance(got, _Damaged):
+            return ('val', got.uid)  # the value as it was read, before the harness modified the object
         if kind in ('get', 'pop', 'setdefault'):
             return ('val', val_uid(self.kind, got))
         if kind == 'getd':
@@ -1046,6 +1095,11 @@ class _RunState:
 
 
 _DEFAULT = object()
+
+
+class _Damaged:
+    def __init__(self, uid):
+        self.uid = uid
 
 
 def _sub_index(op):
